@@ -143,6 +143,11 @@ class Repo:
                 for t in (c.methods, c.getters, c.setters):
                     if rest[1] in t:
                         return t[rest[1]]
+            if len(rest) == 3 and rest[0] in m.classes and rest[2] in ('setter', 'getter'):
+                c = m.classes[rest[0]]
+                t = c.setters if rest[2] == 'setter' else c.getters
+                if rest[1] in t:
+                    return t[rest[1]]
         raise KeyError(qualname)
 
     def klass(self, qualname):
